@@ -1,4 +1,5 @@
 """C17 - Lattice coordinate algebra is consistent."""
+import os
 import json
 from fractions import Fraction
 
@@ -194,11 +195,37 @@ def mk_replay(zero, a, b, idx, r, fy, fx, fail):
                                                                                         'r': r, 'fy': fy, 'fx': fx}, 'failure': fail}
 
 
+def check_generated_polar(ctx):
+    """(G) for the polar clause: translate base/utils.py make_cartesian / make_polar to terms over R (fail closed) and
+    re-prove that they are Model/Polar.v's definitions, for all arguments."""
+    import translate_r
+    from core import REPO, coqc, theorem_names
+    try:
+        gen = translate_r.translate(REPO)
+    except Exception as e:  # noqa: fail closed, whatever the reason
+        ctx.obligation('G:translate rpolar', False, 'translator (fail closed): %s: %s' % (type(e).__name__, str(e)[:300]))
+        return False
+    open(os.path.join(ctx.rundir, 'GenR.v'), 'w').write(gen)
+    bpath = os.path.join(ctx.rundir, 'GenBridge_rpolar.v')
+    open(bpath, 'w').write(translate_r.BRIDGE)
+    rc, out = coqc(os.path.join(ctx.rundir, 'GenR.v'), ctx.rundir)
+    if rc != 0:
+        ctx.obligation('G:GenR.v compiles', False, out[-500:])
+        return False
+    rc, out = coqc(bpath, ctx.rundir)
+    names = theorem_names(bpath)
+    for nm in names:
+        ctx.obligation('G:BFGen.GenBridge_rpolar.%s (generated from source = model, for all arguments)' % nm, rc == 0,
+                       'proved' if rc == 0 else 'bridge proof fails: ' + ' '.join(out.split())[-300:])
+    return rc == 0
+
+
 def run(ctx):
     rng = ctx.rng
     ctx.check_theorems()
     ctx.check_theorems_reals('C17R')   # polar/cartesian round trip over R (real-number axioms of the standard library)
     ctx.check_generated(['qlat', 'vidx'])
+    check_generated_polar(ctx)
     exprs, meta = [], []
     for k in range(ctx.n(150, 1500)):
         integer = (k % 3 == 0)
